@@ -318,7 +318,7 @@ bool Instance::eval(const size_t argc, char* const* argv) {
         return false;
     }
     CScript::const_iterator it = script.begin();
-    const CScript::const_iterator codehash_before = env->pbegincodehash;
+    CScript::const_iterator codehash_before = env->pbegincodehash;
     bool ok = true;
     try {
         while (it != script.end()) {
@@ -327,16 +327,17 @@ bool Instance::eval(const size_t argc, char* const* argv) {
                 ok = false;
                 break;
             }
+            if (env->pbegincodehash != codehash_before) {
+                // an executed OP_CODESEPARATOR made the script code start point into the temporary
+                // script: the code that follows it is the rest of the debugged script (also for a
+                // signature check later in this same exec)
+                env->pbegincodehash = codehash_before = env->pc;
+            }
         }
     } catch (const std::exception& ex) {
         // e.g. scriptnum_error on a numeric operand that is too long
         fprintf(stderr, "Error: exception thrown: %s\n", ex.what());
         ok = false;
-    }
-    if (env->pbegincodehash != codehash_before) {
-        // an executed OP_CODESEPARATOR made the script code start point into the temporary script,
-        // which is about to be destroyed: the code that follows it is the rest of the debugged script
-        env->pbegincodehash = env->pc;
     }
     return ok;
 }
